@@ -24,12 +24,14 @@ CONSTANTS MaxIds,      \* bound on the number of entity ids (pool size)
           ValMode,     \* "ord": values identify entity and component; "const": component only (fewer states)
           EmitPct,     \* percentage of the transitions whose history is emitted for replay (100 = all)
           EmitSeed,    \* selects which ones (deterministic checksum of the history)
+          MaxOpen,     \* bound on simultaneously open queries
+          ObsCat,      \* catalogue of observer specifications [ev, obs, with, without, excl]
           EmitMode     \* "all": every transition (BFS); "last": only histories of full length (simulation)
 
 VARIABLES st, gw, ords, hist
 
 vars == <<st, gw, ords, hist>>
-View == st
+View == <<st, gw.obs>>
 
 CompIdx(c) == CHOOSE i \in DOMAIN CompSeq : CompSeq[i] = c
 
@@ -49,9 +51,10 @@ NoFlt == [with |-> <<>>, without |-> <<>>, excl |-> FALSE, ft |-> EmptyFn, qt |-
 FltJson(flt) == [with |-> CSeq(flt.with), without |-> CSeq(flt.without), excl |-> flt.excl,
                  ft |-> OrdTg(flt.ft), qt |-> OrdTg(flt.qt)]
 
+NoObs == [ev |-> "", obs |-> <<>>, with |-> <<>>, without |-> <<>>, excl |-> FALSE]
 Entry(op, e, add, rem, vals, tg, n, f, flt, mode) ==
     [op |-> op, e |-> e, add |-> CSeq(add), rem |-> CSeq(rem), vals |-> vals, tg |-> OrdTg(tg),
-     n |-> n, f |-> f, flt |-> flt, mode |-> mode]
+     n |-> n, f |-> f, flt |-> flt, mode |-> mode, o |-> 0, obs |-> NoObs, ev |-> ""]
 
 Init ==
     /\ st = InitStorage
@@ -187,6 +190,19 @@ OpAddBatch ==
             IN Step(IF Ok(s1) THEN W(s1, S) ELSE s1, DoExchangeBatch(gw, S, C, {}, vf, tg), ords,
                     Entry("AddBatch", 0, C, {}, EmptyFn, tg, 1, fid, FltJson(flt), "fn"))
 
+OpExchangeBatch ==
+    /\ "ExchangeBatch" \in OpKinds /\ Room
+    /\ \E ff \in AllBatchFilters : \E add \in DeltaSets : \E rem \in DeltaSets : \E tg \in TgFor(add) :
+         LET fid == ff[1] flt == ff[2] S == Select(gw, flt) IN
+         /\ S # {}
+         /\ PreExchangeBatch(gw, flt, add, rem, tg)
+         /\ LET vf == [x \in S |-> BatchVal(Ord(x), add)]
+                s1 == BExchangeBatch(st, flt, fid, add, rem, tg)
+                RECURSIVE W(_, _)
+                W(s, R) == IF R = {} THEN s ELSE LET x == CHOOSE y \in R : TRUE IN W(WriteVals(s, x, vf[x]), R \ {x})
+            IN Step(IF Ok(s1) THEN W(s1, S) ELSE s1, DoExchangeBatch(gw, S, add, rem, vf, tg), ords,
+                    Entry("ExchangeBatch", 0, add, rem, EmptyFn, tg, 1, fid, FltJson(flt), "fn"))
+
 OpRemoveBatch ==
     /\ "RemoveBatch" \in OpKinds /\ Room
     /\ \E ff \in AllBatchFilters : \E C \in DeltaSets :
@@ -216,6 +232,59 @@ OpKillBatch ==
          /\ Step(BKillBatch(st, flt, fid), DoKillSet(gw, S), ords,
                  Entry("KillBatch", 0, {}, {}, EmptyFn, EmptyFn, 1, fid, FltJson(flt), "fn"))
 
+\* queries that stay open (C07): any filter of the catalogue, registered or not
+OpQOpen ==
+    /\ "QOpen" \in OpKinds /\ Room
+    /\ ~LockFull(st)
+    /\ \E q \in (1..MaxOpen) \ DOMAIN gw.open : \E ff \in AllBatchFilters :
+         /\ \A p \in DOMAIN gw.open : p < q => TRUE
+         /\ q = (CHOOSE m \in (1..MaxOpen) \ DOMAIN gw.open : \A n \in (1..MaxOpen) \ DOMAIN gw.open : m <= n)
+         /\ Step(BQOpen(st, q, ff[2], ff[1]), DoQOpen(gw, q, ff[2]), ords,
+                 [Entry("QOpen", 0, {}, {}, EmptyFn, EmptyFn, 1, ff[1], FltJson(ff[2]), "val") EXCEPT !.n = q])
+
+OpQNext ==
+    /\ "QOpen" \in OpKinds /\ Room
+    /\ \E q \in DOMAIN gw.open :
+         LET rows == st.qs[q].rows IN
+         Step(BQNext(st, q), IF rows = <<>> THEN DoQClose(gw, q) ELSE DoQYield(gw, q, Head(rows)), ords,
+              [Entry("QNext", 0, {}, {}, EmptyFn, EmptyFn, 1, 0, NoFlt, "val") EXCEPT !.n = q])
+
+OpQClose ==
+    /\ "QOpen" \in OpKinds /\ Room
+    /\ \E q \in DOMAIN gw.open :
+         Step(BQClose(st, q), DoQClose(gw, q), ords,
+              [Entry("QClose", 0, {}, {}, EmptyFn, EmptyFn, 1, 0, NoFlt, "val") EXCEPT !.n = q])
+
+\* observers (C08 / C09): layer B is not affected; the ghost world records who is registered
+OpRegO ==
+    /\ "RegO" \in OpKinds /\ Room
+    /\ \E k \in (DOMAIN ObsCat) \ DOMAIN gw.obs :
+         LET o == ObsCat[k] IN
+         Step(st, DoRegO(gw, k, o), ords,
+              [Entry("RegO", 0, {}, {}, EmptyFn, EmptyFn, 1, 0, NoFlt, "val") EXCEPT !.o = k,
+                  !.obs = [ev |-> o.ev, obs |-> CSeq(o.obs), with |-> CSeq(o.with), without |-> CSeq(o.without), excl |-> o.excl]])
+
+OpUnregO ==
+    /\ "RegO" \in OpKinds /\ Room
+    /\ \E k \in DOMAIN gw.obs :
+         Step(st, DoUnregO(gw, k), ords,
+              [Entry("UnregO", 0, {}, {}, EmptyFn, EmptyFn, 1, 0, NoFlt, "val") EXCEPT !.o = k])
+
+OpEmit ==
+    /\ "Emit" \in OpKinds /\ Room
+    /\ \E e \in Alive(gw) \cup {Zero} : \E C \in (IF e = Zero THEN {{}} ELSE SUBSET CompsOf(gw, e)) :
+         Step(st, gw, ords,
+              [Entry("Emit", Ord(e), C, {}, EmptyFn, EmptyFn, 1, 0, NoFlt, "val") EXCEPT !.ev = "Custom0"])
+
+\* C17: dump the entity state, load it into a second world and create one more entity in both.  In layer B the
+\* loaded pool is a copy (entities, next, available) of the dumped one, so both worlds issue PoolPeek(st).
+OpDumpLoad ==
+    /\ "DumpLoad" \in OpKinds /\ Room /\ CanCreate(1) /\ ~Locked(gw)
+    /\ \E mode \in {"fresh", "reset"} :
+         LET h == PoolPeek(st) IN
+         Step(BNew(st, {}, EmptyFn), DoNew(gw, h, {}, EmptyFn, EmptyFn), Append(ords, h),
+              Entry("DumpLoad", 0, {}, {}, EmptyFn, EmptyFn, 1, 0, NoFlt, mode))
+
 OpRegF ==
     /\ "RegF" \in OpKinds /\ Room
     /\ \E k \in RegCat \ DOMAIN gw.regF : \E a \in [FilterCat[k].ftc -> TargetChoices] :
@@ -231,7 +300,7 @@ OpUnregF ==
               Entry("UnregF", 0, {}, {}, EmptyFn, EmptyFn, 1, k, NoFlt, "val"))
 
 OpShrink ==
-    /\ "Shrink" \in OpKinds /\ Room
+    /\ "Shrink" \in OpKinds /\ Room /\ ~Locked(gw)
     /\ \E mode \in {"all", "one"} :
          /\ BShrink(st, mode) # st
          /\ Step(BShrink(st, mode), gw, ords,
@@ -244,8 +313,9 @@ OpReset ==
             Entry("Reset", 0, {}, {}, EmptyFn, EmptyFn, 1, 0, NoFlt, "val"))
 
 Next == \/ OpNew \/ OpNewNoInit \/ OpNewBatch \/ OpCopy \/ OpAdd \/ OpAddNoInit \/ OpRemove \/ OpExchange \/ OpSet \/ OpSetRel \/ OpKill
-        \/ OpAddBatch \/ OpRemoveBatch \/ OpSetRelBatch \/ OpKillBatch
-        \/ OpRegF \/ OpUnregF \/ OpShrink \/ OpReset
+        \/ OpAddBatch \/ OpExchangeBatch \/ OpRemoveBatch \/ OpSetRelBatch \/ OpKillBatch
+        \/ OpRegF \/ OpUnregF \/ OpShrink \/ OpReset \/ OpQOpen \/ OpQNext \/ OpQClose
+        \/ OpRegO \/ OpUnregO \/ OpEmit \/ OpDumpLoad
 
 Spec == Init /\ [][Next]_vars
 
@@ -278,6 +348,9 @@ BSpare    == Ok(st) => SpareCellsZero(st)
 BTables   == Ok(st) => TablesOK(st)
 BRelIndex == Ok(st) => RelIndexOK(st)
 BCache    == Ok(st) => CacheOK(st)
+BLock     == Ok(st) => (LockOK(st) /\ (IsLockedB(st) <=> Locked(gw)) /\ DOMAIN st.qs = DOMAIN gw.open)
+\* C03: an open query yields exactly what is left of its selection
+BOpenRows == Ok(st) => \A q \in DOMAIN st.qs : SetOf(st.qs[q].rows) = gw.open[q].rem /\ Len(st.qs[q].rows) = Cardinality(gw.open[q].rem)
 BCacheIds == Ok(st) => {st.cache[i].fid : i \in DOMAIN st.cache} = DOMAIN gw.regF
 \* C03/C05/C06: the tables a query or batch walks hold exactly the selected entities, once each
 QueriesExact ==
